@@ -40,7 +40,7 @@ if [ $CLEAN -ne 0 ] || [ $BUILD -ne 0 ] || [ $DEMOFAIL -eq 0 ] || [ $SUITE -ne 0
 # apply to /repo
 cd /repo || exit 2
 if [ -n "$(git status --porcelain)" ]; then echo "/repo is dirty"; exit 2; fi
-git apply --3way "$D/patch.diff" >/tmp/mut_apply.log 2>&1 || { echo "[mutant $D] does not apply to current /repo:"; tail -5 /tmp/mut_apply.log; git checkout -q -- . ; git reset -q; exit 5; }
+git apply --3way "$D/patch.diff" >/tmp/mut_apply.log 2>&1 || { echo "[mutant $D] does not apply to current /repo:"; tail -5 /tmp/mut_apply.log; git reset -q --hard HEAD; exit 5; }
 git reset -q
 go build ./... || { echo "[mutant $D] does not build on current /repo"; git checkout -q -- .; exit 5; }
 cd /verif
